@@ -76,7 +76,7 @@ LITS = (BIG + ["-" + b for b in BIG[:6]] + ["16#" + "F" * n for n in (8, 16, 32,
         ["TOD#24:00:00", "TOD#23:59:300.5", "TOD#%s:0:0" % BIG[3], "TOD#1:2:3.%s" % ("9" * 30), "TOD#00:00:4294967296"] +
         ["DT#2020-02-30-25:61:61", "DT#%s-1-1-1:1:1" % BIG[2], "DT#1-1-1-1:1:%s" % BIG[3]] +
         ["%IX" + BIG[1], "%IX1." + BIG[3], "%QW" + "1." * 20 + "1", "%MD4294967296", "%I*", "%IX9.9.9.9.9.9.9.9"] +
-        ["'" + "a" * 5000 + "'", "\"" + "é" * 3000 + "\"", "'$'", "'$$'", "''''", "STRING#'x'", "WSTRING#\"y\""] +
+        ["'" + "a" * 5000 + "'", "\"" + "é" * 3000 + "\"", "'$'", "'$$'", "''''", "STRING#'x'", "WSTRING#\"y\"", "\"$41\"", "\"$C4$CB\"", "\"A$0A\"", "'$4'", "\"$4\"", "'$41'", "\"$00C4\"", "\"tab$09\"", "'$N$L$P$R$T'", "\"$\""] +
         ["BYTE#" + BIG[3], "WORD#16#" + "F" * 40, "BOOL#2", "BOOL#" + BIG[0]])
 
 CONTEXTS = [
